@@ -372,6 +372,9 @@ var apiTemplates = []string{
 	"_ = new({N:int|[]int|struct{}|*int|func()|any|[0]int|chan int|map[string]int|sync.Mutex})",
 	"_ = complex({F:f|1}, {F:2|f}) {O:==|!=} complex({F:1}, 2)\n\t_ = real(complex128({N:1i|complex(f, f)})) + imag({N:2i|complex(1, f)})",
 	"close({N:ch|make(chan int)|(ch)|*new(chan int)})",
+	"var fv {N:func(int) int = exoID[int]|func() = func() {}|func(string) string = strings.ToUpper|func() string = t.String|func(time.Time) string = time.Time.String|func(int, string) int = exoPair[int, string]|func(error) error = errors.Unwrap|func(...any) string = fmt.Sprint}\n\t_ = fv",
+	// explicitly typed variables whose initialiser needs the declared type to infer type arguments
+	"§redundant-type-partial-instantiation§var fv {N:func(int, string) int = exoPair[int]|func(int) int = exoID|func(int, string) int = exoPair|func(*int, []string) *int = exoPair[*int]}\n\t_ = fv",
 	"delete(m, {S:s|\"k\"})\n\tdelete({N:m|map[string]int{}|(m)}, {S:\"k\"})",
 }
 
@@ -387,6 +390,8 @@ type exoBox[T any] struct{ v T }
 func (b exoBox[T]) Get() T { return b.v }
 
 func exoID[T any](x T) T { return x }
+
+func exoPair[A, B any](a A, b B) A { return a }
 
 var sqlErrNoRows = errors.New("sql: no rows")
 
@@ -647,8 +652,19 @@ func (g *gen) apiLines() string {
 		set = allTemplates
 	}
 	i := set[g.intn(0, len(set)-1, "api")]
+	tmpl := apiTemplates[i]
+	// a template that is the input class of a recorded finding names its signature in front
+	for strings.HasPrefix(tmpl, "§") {
+		end := strings.Index(tmpl[2:], "§") + 2
+		if g.include(tmpl[2:end]) {
+			tmpl = tmpl[end+2:]
+			break
+		}
+		i = set[g.intn(0, len(set)-1, "api")]
+		tmpl = apiTemplates[i]
+	}
 	var pre []string
-	s := g.fill(apiTemplates[i], &pre)
+	s := g.fill(tmpl, &pre)
 	g.feat("api_" + apiName(apiTemplates[i]))
 	if len(pre) > 0 {
 		return "{\n\t" + strings.Join(pre, "\n\t") + "\n\t" + s + "\n\t}"
